@@ -372,8 +372,17 @@ func (s *Server) WaitReady(d time.Duration) bool {
 // MustStart starts and waits for readiness; a server that does not come up is a harness problem.
 func (s *Server) MustStart() {
 	s.Start("")
-	if !s.WaitReady(60 * time.Second) {
-		Fatal("server %s did not become ready: %s", s.IP, s.TailLog(2000))
+	if s.WaitReady(60 * time.Second) {
+		return
+	}
+	// the first start of a fresh instance is not part of any property: one more attempt before giving up (a busy machine, a
+	// port still held by a previous process) - callers use MustStart only for fresh instances, recoveries have their own waits
+	first := s.TailLog(1200)
+	s.Kill()
+	time.Sleep(2 * time.Second)
+	s.Start("")
+	if !s.WaitReady(120 * time.Second) {
+		Fatal("server %s did not become ready in two attempts: %s\n-- first attempt: %s", s.IP, s.TailLog(2000), first)
 	}
 }
 
